@@ -20,7 +20,7 @@ NMAX = {"quick": 2, "thorough": 3}
 # union the resulting RecursionError is an ordinary member failure ("no member accepts") - an interpreter limit, not a library property
 DEPTHS = {"quick": list(range(0, 13)), "thorough": list(range(0, 13)) + [25, 50]}
 STEP = 12
-BUILD_LIMIT = 5.0
+BUILD_LIMIT = 20.0  # wall clock; generous so that an overloaded machine is not mistaken for non-termination
 MAXTASKS = 8
 
 
